@@ -25,6 +25,10 @@ type verAPI interface {
 	NewSlab(n int) []unsafe.Pointer
 	Parse(s string) (unsafe.Pointer, error)
 	Set(p unsafe.Pointer, m, v string) error
+	// SetOnStack performs the Set on a stack-allocated copy of the object,
+	// depth frames further down the goroutine stack, and copies the result back
+	// (a caller's local variable; the runtime may move the stack during the call).
+	SetOnStack(p unsafe.Pointer, m, v string, depth int) error
 	Get(p unsafe.Pointer, m string) (string, error)
 	Vector(p unsafe.Pointer) string
 	ScoreNames() []string
@@ -47,6 +51,7 @@ type verAPI interface {
 }
 
 type gapi[T comparable] struct {
+	setStack  func(p unsafe.Pointer, m, v string, depth int) error
 	ver       int
 	parse     func(string) (*T, error)
 	set       func(*T, string, string) error
@@ -132,6 +137,12 @@ func (g *gapi[T]) Parse(s string) (unsafe.Pointer, error) {
 	return unsafe.Pointer(p), err
 }
 func (g *gapi[T]) Set(p unsafe.Pointer, m, v string) error { return g.set((*T)(p), m, v) }
+func (g *gapi[T]) SetOnStack(p unsafe.Pointer, m, v string, depth int) error {
+	if g.setStack == nil {
+		return g.set((*T)(p), m, v)
+	}
+	return g.setStack(p, m, v, depth)
+}
 func (g *gapi[T]) Get(p unsafe.Pointer, m string) (string, error) {
 	return g.get((*T)(p), m)
 }
@@ -179,10 +190,11 @@ func (g *gapi[T]) ErrName(err error) string {
 
 var apis = map[int]verAPI{
 	20: &gapi[gocvss20.CVSS20]{
-		ver:   20,
-		parse: gocvss20.ParseVector,
-		set:   func(o *gocvss20.CVSS20, m, v string) error { return o.Set(m, v) },
-		get:   func(o *gocvss20.CVSS20, m string) (string, error) { return o.Get(m) },
+		setStack: setOnStack20,
+		ver:      20,
+		parse:    gocvss20.ParseVector,
+		set:      func(o *gocvss20.CVSS20, m, v string) error { return o.Set(m, v) },
+		get:      func(o *gocvss20.CVSS20, m string) (string, error) { return o.Get(m) },
 		vector: func(o *gocvss20.CVSS20) string {
 			return o.Vector()
 		},
@@ -209,6 +221,7 @@ var apis = map[int]verAPI{
 		},
 	},
 	30: &gapi[gocvss30.CVSS30]{
+		setStack:  setOnStack30,
 		ver:       30,
 		parse:     gocvss30.ParseVector,
 		set:       func(o *gocvss30.CVSS30, m, v string) error { return o.Set(m, v) },
@@ -239,6 +252,7 @@ var apis = map[int]verAPI{
 		},
 	},
 	31: &gapi[gocvss31.CVSS31]{
+		setStack:  setOnStack31,
 		ver:       31,
 		parse:     gocvss31.ParseVector,
 		set:       func(o *gocvss31.CVSS31, m, v string) error { return o.Set(m, v) },
@@ -269,6 +283,7 @@ var apis = map[int]verAPI{
 		},
 	},
 	40: &gapi[gocvss40.CVSS40]{
+		setStack:  setOnStack40,
 		ver:       40,
 		parse:     gocvss40.ParseVector,
 		set:       func(o *gocvss40.CVSS40, m, v string) error { return o.Set(m, v) },
@@ -310,4 +325,71 @@ func canonErr(a verAPI, err error) (s string) {
 		}
 	}()
 	return fmt.Sprintf("%T%+v|%s", err, err, err.Error())
+}
+
+// The setOnStackNN functions call Set directly (a static call: the local copy
+// stays on the stack as long as Set itself does not let its receiver escape).
+
+func setOnStack20(p unsafe.Pointer, m, v string, depth int) error {
+	if depth > 0 {
+		var pad [96]byte
+		pad[depth%96] = 1
+		err := setOnStack20(p, m, v, depth-1)
+		if pad[depth%96] != 1 {
+			panic("unreachable: the padding only exists to use stack")
+		}
+		return err
+	}
+	local := *(*gocvss20.CVSS20)(p)
+	err := local.Set(m, v)
+	*(*gocvss20.CVSS20)(p) = local
+	return err
+}
+
+func setOnStack30(p unsafe.Pointer, m, v string, depth int) error {
+	if depth > 0 {
+		var pad [96]byte
+		pad[depth%96] = 1
+		err := setOnStack30(p, m, v, depth-1)
+		if pad[depth%96] != 1 {
+			panic("unreachable: the padding only exists to use stack")
+		}
+		return err
+	}
+	local := *(*gocvss30.CVSS30)(p)
+	err := local.Set(m, v)
+	*(*gocvss30.CVSS30)(p) = local
+	return err
+}
+
+func setOnStack31(p unsafe.Pointer, m, v string, depth int) error {
+	if depth > 0 {
+		var pad [96]byte
+		pad[depth%96] = 1
+		err := setOnStack31(p, m, v, depth-1)
+		if pad[depth%96] != 1 {
+			panic("unreachable: the padding only exists to use stack")
+		}
+		return err
+	}
+	local := *(*gocvss31.CVSS31)(p)
+	err := local.Set(m, v)
+	*(*gocvss31.CVSS31)(p) = local
+	return err
+}
+
+func setOnStack40(p unsafe.Pointer, m, v string, depth int) error {
+	if depth > 0 {
+		var pad [96]byte
+		pad[depth%96] = 1
+		err := setOnStack40(p, m, v, depth-1)
+		if pad[depth%96] != 1 {
+			panic("unreachable: the padding only exists to use stack")
+		}
+		return err
+	}
+	local := *(*gocvss40.CVSS40)(p)
+	err := local.Set(m, v)
+	*(*gocvss40.CVSS40)(p) = local
+	return err
 }
